@@ -7,6 +7,7 @@ mod c06;
 mod c09;
 mod c10;
 mod c10_conn;
+mod c11;
 mod c14;
 mod c18;
 mod sinkwalk;
@@ -21,6 +22,7 @@ pub fn run(opts: &Opts) -> i32 {
         "C05" => walkprops::run(opts, "C05"),
         "C06" => c06::run(opts),
         "C09" => c09::run(opts),
+        "C11" => c11::run(opts),
         "C13" => walkprops::run(opts, "C13"),
         "C10" => c10::run(opts),
         "C14" => c14::run(opts),
